@@ -294,6 +294,9 @@ def cast_grid(run):
             "int32": [0, 1, 100, 127, 128, 200, 255, 256, 300, 32768, 70000, -1, -129, 16777217, 5],
             "uint8": [0, 1, 100, 127, 128, 200, 255, 3, 4, 5, 6, 7, 8, 9, 10]}
     dsts = ["int8", "int16", "int32", "int64", "uint8", "uint16", "float32", "float64"]
+    compound = {"(a == K) & (b > 0)": lambda y, k: y[(y.a == k) & (y.b > 0)], "(b > 0) & (a == K)": lambda y, k: y[(y.b > 0) & (y.a == k)],
+                "(a == K) | (b > 12)": lambda y, k: y[(y.a == k) | (y.b > 12)], "(b > 12) | (a >= K)": lambda y, k: y[(y.b > 12) | (y.a >= k)],
+                "~(a >= K) & (b < 8)": lambda y, k: y[~(y.a >= k) & (y.b < 8)], "(a > K) & (a < K + 200) & (b >= 0)": lambda y, k: y[(y.a > k) & (y.a < k + 200) & (y.b >= 0)]}
     preds = {"> 100": lambda c: c > 100, "< 0": lambda c: c < 0, "== 1": lambda c: c == 1, "== 16777216": lambda c: c == 16777216, ">= 128": lambda c: c >= 128,
              "<= 44": lambda c: c <= 44, "!= 0": lambda c: c != 0}
     n = 0
@@ -318,6 +321,28 @@ def cast_grid(run):
                         run.violation("filter a %s above astype(%s -> %s, %s) fails when optimized: %s" % (pn, src, dst, form, got[1]), case)
                     elif got[1] != pc:
                         run.violation("filter a %s above astype(%s -> %s, %s) returns %s, pandas %s" % (pn, src, dst, form, _short(got[1]), _short(pc)), case)
+    # compound predicates: every operand order (a rule that inspects only one operand of the predicate is wrong for the other order)
+    for src, vs in vals.items():
+        pdf = pd.DataFrame({"a": np.array(vs, dtype=src), "b": range(len(vs))})
+        for dst in dsts:
+            if dst == src:
+                continue
+            for cn, cf in compound.items():
+                for k in (1, 100, 128):
+                    with np.errstate(all="ignore"):
+                        exp = try_(lambda: cf(pdf.astype({"a": dst}), k))
+                    if exp[0] == "raise":
+                        continue
+                    n += 1
+                    run.count(("cast-compound", src, dst, cn, k))
+                    df = rt.dx.from_pandas(pdf, npartitions=3)
+                    got = try_(lambda: canon(concat_parts(exec_expr(cf(df.astype({"a": dst}), k).optimize().expr)), True))
+                    pc = canon(exp[1], True)
+                    case = {"kind": "cast-compound", "src": src, "dst": dst, "pred": cn, "k": k}
+                    if got[0] == "raise":
+                        run.violation("filter %s (K=%d) above astype(%s -> %s) fails when optimized: %s" % (cn, k, src, dst, got[1]), case)
+                    elif got[1] != pc:
+                        run.violation("filter %s (K=%d) above astype(%s -> %s) returns %s, pandas %s" % (cn, k, src, dst, _short(got[1]), _short(pc)), case)
     run.section("cast_grid", cases=n, sources=sorted(vals), destinations=dsts)
 
 
